@@ -564,7 +564,7 @@ class MacroProgram(ElementProgram):
         try:
             clause = ns[METAL, 'define-macro']
         except KeyError:
-            pass
+            macro_name = None
         else:
             if ns.get((METAL, 'fill-slot')) is not None:
                 raise LanguageError(
@@ -573,6 +573,7 @@ class MacroProgram(ElementProgram):
                     clause
                 )
 
+            macro_name = clause
             self._macros[clause] = slot
             slot = nodes.UseInternalMacro(clause)
 
@@ -626,6 +627,13 @@ class MacroProgram(ElementProgram):
             # error handler has to go there with it.
             if fill_slot is not None:
                 fill_slot.node = ON_ERROR(fill_slot.node)
+
+            # Likewise, the error handler of a metal:define-macro
+            # element is part of the macro, wherever it is used (which
+            # covers the element where it stands, too).
+            if macro_name is not None:
+                self._macros[macro_name] = ON_ERROR(self._macros[macro_name])
+                ON_ERROR = skip
 
         clause = ns.get((META, 'interpolation'))
         if clause in ('false', 'off'):
